@@ -199,7 +199,11 @@ def run_apply(spec, out):
             nt += spec.get('triples', 1000) if 'ok' in res else 0
         out.label(f'{w}.{"accepted" if "ok" in res else "rejected"}.{op}')
         if res == {'rejected', 'ok'}:
+            # an operator symbol is supported or not: it is not refused
+            # for particular operand values
             out.label(f'{w}.partly_rejected.{op}')
+            out.fail('apply.rejected_for_some_operands',
+                     dict(base, op=op), dict(op=op))
     P.ZPERM['invperm'] = [0, 1, 2]
     out.count(max(cnt, 1), nt)
     out.sample(dict(base, op=spec['ops'][0], operands=[0x96, 0xe8],
